@@ -707,6 +707,53 @@ def d9_sentinel_is_not_a_value(chk: Check) -> None:
                          "discarded".format(src(v)))
 
 
+def d10_characters_by_literal(chk: Check) -> None:
+    """The character loops of the path parsers decide what a character
+    means by comparing it with *literal* characters (or with the open
+    demarcation mark).  A character-class predicate (`isspace()`,
+    `isalnum()`...) widens an arm to characters the arm was never meant
+    for -- and which the path writer does not escape: with `isspace()` in
+    the arm that drops unquoted blanks, a TAB or a line break inside a
+    keyword parameter (a key name) silently disappears, and
+    `[has_child(a<TAB>b)]` looks for the key `ab`."""
+    prog = chk.prog
+    chk.rule("C13-D10", "the character loops of the path parsers classify "
+             "the current character only by comparison with literal "
+             "characters, never by a str predicate method", floor=8)
+    n = 0
+    for q in ("SearchKeywordTerms.parameters", "YAMLPath._parse_path"):
+        fi = prog.func(q)
+        loops = [l for l in walk_local(fi.node) if isinstance(l, ast.For)
+                 and isinstance(l.target, (ast.Name, ast.Tuple))]
+        for loop in loops:
+            tgt = loop.target
+            char = src(tgt.elts[-1]) if isinstance(tgt, ast.Tuple) \
+                else src(tgt)
+            for t in walk_local(loop):
+                if isinstance(t, ast.Compare) and src(t.left) == char and \
+                        len(t.ops) == 1 and \
+                        isinstance(t.ops[0], (ast.Eq, ast.NotEq, ast.In,
+                                              ast.NotIn)):
+                    n += 1
+                    chk.ok("C13-D10", fi, t, "{}: `{}`".format(
+                        fi.short, src(t)[:40]), "literal comparison", False)
+                elif isinstance(t, ast.Call) and \
+                        isinstance(t.func, ast.Attribute) and \
+                        src(t.func.value) == char and \
+                        t.func.attr.startswith("is"):
+                    n += 1
+                    chk.fail("C13-D10", fi, t, "{}: `{}`".format(
+                        fi.short, src(t)),
+                        "`{}` is true for more than the one character the "
+                        "arm is about (TAB, line breaks, NO-BREAK SPACE for "
+                        "isspace): those characters of a key or parameter "
+                        "are handled like the blank -- dropped -- although "
+                        "nothing escapes them when a path is written"
+                        .format(src(t)))
+    if n < 8:
+        raise AnalysisError("character tests in the parsers: {}".format(n))
+
+
 def run(chk: Check) -> None:
     d1_routing(chk)
     d2_extremes(chk)
@@ -717,3 +764,4 @@ def run(chk: Check) -> None:
     d7_branches_exclusive(chk)
     d8_refusal_only_for_scalars(chk)
     d9_sentinel_is_not_a_value(chk)
+    d10_characters_by_literal(chk)
